@@ -16,7 +16,7 @@ if s.count(old)!=1:
 open(p,'w').write(s.replace(old,new))
 PY
 if [ -z "$SKIP_OWN" ]; then
-( cd $M/$(dirname $F) && go test -vet=off -count=1 . 2>&1 | tail -3 )
+( cd $M/$(dirname $F) && go test -vet=off -count=1 -timeout 90s . 2>&1 | tail -3 )
 fi
 ( cd /verif && VERIF_REPO=$M VERIF_TAG=$TAGN ./check $ID "$@" 2>&1 | grep -E "VIOLATION|^OK|INFRA|Fatalf|\.go:[0-9]+:" | head -${MUT_LINES:-8} )
 git -C $M checkout -- . 
